@@ -117,6 +117,8 @@ LookupViol(e) ==
          : i \in {i \in DOMAIN e.targets : e.targets[i].p \notin {k[2] : k \in ToSet(e.okinds)}} }
   \cup { [l |-> l, prop |-> "C11", what |-> "a block-local name (self / count / each) resolves to a declaration in another block", n |-> 1, first |-> i]
          : i \in {i \in DOMAIN e.targets : e.local /\ e.targets[i].tblock # e.oblock} }
+  \cup { [l |-> l, prop |-> "C11", what |-> "a reference ending in an attribute name resolves to a declaration of another name", n |-> 1, first |-> i]
+         : i \in {i \in DOMAIN e.targets : e.olast # "" /\ e.targets[i].deftext # "" /\ e.okind = "local" /\ e.targets[i].deftext # e.olast} }
   \cup { [l |-> l, prop |-> "C11", what |-> "go-to-definition reports an origin range other than the origin asked about", n |-> 1, first |-> i]
          : i \in {i \in DOMAIN e.targets : e.targets[i].origin # e.orange} }
 
